@@ -1,7 +1,7 @@
 (* C17 — workflow results do not depend on worker or schedule (partial: the model covers the two
    scheduling loops, every oracle and every max_concurrent; real pool timing and cloudpickle
    transport of jobs are runtime behaviour covered by the correspondence run only). *)
-From Pydra Require Import Base.Prelude Base.SchedBase Model.Sched Spec.Sched Proofs.SchedH Proofs.SchedI Proofs.SchedK Proofs.SchedL.
+From Pydra Require Import Base.Prelude Base.SchedBase Model.Sched Spec.Sched Proofs.SchedH Proofs.SchedI Proofs.SchedK Proofs.SchedL Proofs.SchedM.
 
 (* job values are an uninterpreted function `body` of (node, index, values read from the results of
    the predecessor nodes' jobs when the node is started) *)
@@ -62,4 +62,40 @@ Example C17_hyps_nonvacuous :
   o_status (run_async tv T (fun _ => false) repaired g (Some 2) [mkStep [1] [true]; mkStep [0; 5] [false; true]] 40) = Finished
   /\ o_status (run_async tv T (fun _ => false) repaired g None [mkStep [0] []; mkStep [3] [true; true]] 40) = Finished
   /\ o_status (run_sync tv T (fun _ => false) repaired g (Some 1) 40) = Finished.
+Proof. vm_compute. repeat split. Qed.
+
+(* Confluence when some jobs fail: in any two asynchronous runs (any oracles, any max_concurrent) that end by
+   themselves, every job that is not downstream of a failure and does not fail itself has the same value —
+   the reference value.  (Runs with failures end Finished or Stalled, C14_full_total; the values are claimed
+   for the Finished ones.) *)
+Theorem C17_confluence_with_failures :
+  forall (V : Type) (body : nat -> nat -> list (list (option V)) -> V) (fails : job -> bool) (vr : variant)
+         (g : graph) (k1 k2 : option nat) (o1 o2 : list oracle_step) (f1 f2 : nat),
+    fix14 vr = true -> wf_graph g ->
+    let r1 := run_async V body fails vr g k1 o1 f1 in
+    let r2 := run_async V body fails vr g k2 o2 f2 in
+    o_status r1 = Finished -> o_status r2 = Finished ->
+    forall nd i, In nd g -> i < njobs nd -> should_run_b g fails (nid nd, i) = true -> fails (nid nd, i) = false ->
+    value_of (ls_w (o_final r1)) (nid nd, i) = env_lookup V (nid nd, i) (reference V body g)
+    /\ value_of (ls_w (o_final r2)) (nid nd, i) = env_lookup V (nid nd, i) (reference V body g).
+Proof.
+  intros V body fails vr g k1 k2 o1 o2 f1 f2 F WF r1 r2 S1 S2 nd i Hnd Hi SR NFj.
+  unfold should_run_b in SR. apply andb_true_iff in SR. destruct SR as [_ T]. apply negb_true_iff in T. cbn in T.
+  split.
+  - apply (async_values_untainted V body fails vr F g WF k1 o1 f1 S1 nd Hnd T i Hi NFj).
+  - apply (async_values_untainted V body fails vr F g WF k2 o2 f2 S2 nd Hnd T i Hi NFj).
+Qed.
+Print Assumptions C17_confluence_with_failures.
+
+(* non-vacuity: a failing source n0, an independent chain n1 -> n2: two different oracles, both runs Finished,
+   n2 = (2,0) is not downstream of the failure and has the same (reference) value in both *)
+Example C17_failures_nonvacuous :
+  let g := [mkNode 0 [] 1; mkNode 1 [] 1; mkNode 2 [1] 1; mkNode 3 [0] 1] in
+  let fl := fun j => job_eqb j (0, 0) in
+  let r1 := run_async tv T fl repaired g None [mkStep [1] [true]; mkStep [0] []] 20 in
+  let r2 := run_async tv T fl repaired g (Some 1) [] 20 in
+  o_status r1 = Finished /\ o_status r2 = Finished /\ should_run_b g fl (2, 0) = true /\ fl (2, 0) = false
+  /\ should_run_b g fl (3, 0) = false
+  /\ option_eqb tv_eqb (value_of (ls_w (o_final r1)) (2, 0)) (value_of (ls_w (o_final r2)) (2, 0)) = true
+  /\ option_eqb tv_eqb (value_of (ls_w (o_final r1)) (2, 0)) (Some (T 2 0 [[Some (T 1 0 [])]])) = true.
 Proof. vm_compute. repeat split. Qed.
